@@ -46,6 +46,10 @@ def run(ctx):
         # fits under the maximum is accepted (C02.R4 in its strict form, shared with C09.R4)
         from rules import c17, c02 as _c02
         c17.r3(_Renamed(ctx, "C17.R3", "C03.R9"), facts, cfg)
+        # accepted statements still in the queues when stop() is called are delivered: the exit drain leaves only when the emptiness test
+        # says so (statements held back by the grace period are still in the queue when a pass reads nothing) (= C07.R1)
+        from rules import c07 as _c07
+        _c07.r1(_Renamed(ctx, "C07.R1", "C03.R10"), facts, cfg)
         _bn = {m.base: m for m in facts.fns if m.config == cfg and m.cls == _c02.CLS and not m.rec.get("ctor") and not m.rec.get("dtor")}
         _c02.check_r4(_Renamed(ctx, "C02.R4", "C03.R9-cap-"), _bn, strict=True)
         queue_kind_tables(ctx, facts, cfg)
